@@ -46,11 +46,13 @@ Definition Grow (ts ts' : tstate) : Prop :=
   (exists q, chain_of ts' = chain_of ts ++ q /\ Forall (fun b => b_ents b <> []) q) /\
   exists es, stream ts' = stream ts ++ es /\ MG (memne ts) (memne ts') es.
 
-(* the persisted position [p] is exactly the cursor of the (hydrated) reader of [ts] *)
+(* the persisted position [p] is exactly the cursor of the (hydrated) reader of [ts]; a tail
+   position is only ever persisted for a writer block that holds entries (since the fix of the
+   provisional persist on an empty block) *)
 Definition PosIs (ts : tstate) (p : ppos) : Prop :=
   if p_tail p
   then exists w, ts_writer ts = Some w /\ p_a p = b_id w /\
-                 r_idx (reader_of ts) = length (chain_of ts) /\ p_off p = tail_start ts w
+                 r_idx (reader_of ts) = length (chain_of ts) /\ p_off p = tail_start ts w /\ b_ents w <> []
   else p_a p = N.of_nat (r_idx (reader_of ts)) /\ (r_idx (reader_of ts) < length (chain_of ts))%nat /\
        p_off p = r_off (reader_of ts).
 
